@@ -801,6 +801,17 @@ def modified_bessel_functions():
 
 
 @unsupported
+def expression_argument_plus_coefficient():
+    """u + f is not linear in the argument u: there is no tensor A[point][component][dof] that represents it
+    (forms with such an integrand are rejected by UFL's arity check)"""
+    ufl, _, _ = _U()
+    m = mesh("triangle")
+    V = space(m, "Lagrange", 1)
+    u, f = ufl.TrialFunction(V), ufl.Coefficient(V)
+    return [(u + f, np.array([[0.25, 0.25], [0.5, 0.125]]))], {}, "expr"
+
+
+@unsupported
 def sum_factorization_without_tensor_product_element():
     ufl, _, _ = _U()
     m = mesh("hexahedron")
